@@ -41,7 +41,7 @@ _gqa._basic_gqa_rule / gqa_rules   (host_gqa; host opset 23 only: needs Attentio
   drawn: f32/f16/f64; B 1..2, Hkv 1..2, G 1..3, S 1..3, P 1..3, D 2/4, Dv = D or D+1 (no match expected), kv sequence = S or S+1
   (no match expected); B / S / P symbolic; Expand shape constant [B,Hkv,G,T,D] / with 1s / built from Shape+Concat; Reshape shape
   constant / with 0 and -1 / built from Shape+Concat; "fold" variant (no expansion, Reshape moves half of the sequence into the head
-  dim: shapes still pass the rule's check); Concat axis -2 / 2; Unsqueeze axes [2] / [-3]; mask absent / bool [S,T] / float [S,T] /
+  dim: shapes still pass the rule's check); Concat axis -2 / 2; Unsqueeze axes 0-d 2 (the only form the pattern literal matches) / 1-D [2] / 0-d -3; mask absent / bool [S,T] / float [S,T] /
   [1,1,S,T]; Attention attrs is_causal absent/0/1, scale, softcap, qk_matmul_output_mode; present key/value Concat outputs also
   graph outputs or not.
   NOT enumerated: bfloat16, 3-D (packed-head) inputs, zero-length past, Attention with 4 outputs.
@@ -74,6 +74,18 @@ def _dev(rr, g, tag, classes):
     return dev, dv
 
 
+def _hide(g, rr, n0, outs, tag, p=8):
+    """The fusion patterns are 7-12 nodes long and must be removable: any extra consumer the harness grows onto one of the
+    intermediates (or an intermediate promoted to graph output) blocks the rule.  Extra consumers are enumerated on purpose by the
+    planters (dev "extra"), so in p/10 of the hosts the planted intermediates are taken out of the visible environment."""
+    if not rr.chance(p):
+        g.features.add(f"{tag}:intermediates_visible")
+        return outs
+    keep = {o.name for o in outs}
+    g.env[n0:] = [v for v in g.env[n0:] if v.kind != "node" or v.name in keep]
+    return outs
+
+
 def _lead_dims(rr, shape, keep_last=1):
     mode = rr.pick(["static", "static", "static", "named", "anon"])
     dims = list(shape)
@@ -84,24 +96,32 @@ def _lead_dims(rr, shape, keep_last=1):
     return dims
 
 
-def _eps(g, rr, dt, rank, d, dv, tag):
-    val = dv("eps", rr.pick([1e-5, 1e-5, 1e-6, 1e-12]), [0.1, 0.0, -1e-3, 1e-5])
-    shp = dv("eps", rr.pick([(), (), (1,)]), [(1, 1), (1,) * (rank + 1), (d,), ()])
-    how = dv("eps", rr.pick(["node", "init"]), ["ovinit", "input", "node"])
+def _eps(g, rr, dt, rank, d, dev, tag):
+    val, shp, how = rr.pick([1e-5, 1e-5, 1e-6, 1e-12]), rr.pick([(), (), (1,)]), rr.pick(["node", "init"])
+    knobs = {"value": 0, "shape": 0, "how": 0}
+    if dev == "eps":
+        knobs[rr.pick(["value", "shape", "shape", "how"])] = 1
+    elif dev == "any":
+        knobs = {k: int(rr.chance(4)) for k in knobs}
+    if knobs["value"]:
+        val = rr.pick([0.1, 0.0, -1e-3, 1.0])
+    if knobs["shape"]:
+        shp = rr.pick([(1, 1), (1,) * (rank + 1), (1,) * (rank + 1), (d,)])
+    if knobs["how"]:
+        how = rr.pick(["ovinit", "input"])
     g.features.add(f"{tag}:eps_shape_{'x'.join(map(str, shp)) or 'scalar'}")
     g.features.add(f"{tag}:eps_{how}")
-    arr = np.full(shp, val, dtype=dt)
+    g.features.add(f"{tag}:eps_val_{val:g}")
     if how == "input":
-        v = g.add_input(dt, shp, style="positive")
-        return v
-    return g.const_array(arr, how=how)
+        return g.add_input(dt, shp, style="positive")
+    return g.const_array(np.full(shp, val, dtype=dt), how=how)
 
 
 def _scale(g, rr, dt, xshape, dv, tag):
     d = xshape[-1]
     rank = len(xshape)
     opts = {"D": (d,), "scalar": (), "one": (1,), "lead1": (1,) * (rank - 1) + (d,), "SD": tuple(xshape[-2:]), "full": tuple(xshape),
-            "rank_ext": (1,) + tuple(xshape[:-1]) + (d,), "rank_ext1": (1,) * rank + (d,), "S1": (xshape[-2], 1)}
+            "rank_ext": (1,) + tuple(xshape[:-1]) + (d,), "rank_ext1": (1,) * rank + (d,), "S1": (xshape[-2] if rank > 1 else 1, 1)}
     kind = dv("scale", "D", ["scalar", "one", "lead1", "SD", "full", "rank_ext", "rank_ext1", "S1"])
     g.features.add(f"{tag}:scale_{kind}")
     shp = opts[kind]
@@ -129,6 +149,7 @@ def host_layer_norm(g):
     tag = "planted:layer_norm"
     g.features.add(tag)
     rr = _Rng(g)
+    n0 = len(g.env)
     g.set_opset(rr.pick([17, 18, 18, 18, 19, 20, 21, 22, 23, 23]))
     g.features.add(f"{tag}:opset_{'17' if g.opset < 18 else '18plus'}")
     dev, dv = _dev(rr, g, tag, ["reduce", "eps", "eps", "scale", "scale", "form", "extra"])
@@ -162,7 +183,7 @@ def host_layer_norm(g):
     var = _reduce_mean(g, d2[0], axes2, keep, rr=rr)
     if not var:
         return None
-    eps = _eps(g, rr, dt, rank, shape[-1], dv, tag)
+    eps = _eps(g, rr, dt, rank, shape[-1], dev, tag)
     swap = rr.chance(3)
     ve = g.emit("Add", [eps, var[0]] if swap else [var[0], eps])
     if not ve:
@@ -199,7 +220,7 @@ def host_layer_norm(g):
     if extra:
         g.features.add(f"{tag}:extra_{extra}")
         outs.append({"mean": mean[0], "deviation": devn[0], "normalized": norm[0], "std": std[0]}[extra])
-    return outs
+    return _hide(g, rr, n0, outs, tag)
 
 
 # ----------------------------------------------------------------------------------------------- LayerNormalization + Add(bias)
@@ -208,6 +229,7 @@ def host_layer_norm_bias(g):
     tag = "planted:ln_bias"
     g.features.add(tag)
     rr = _Rng(g)
+    n0 = len(g.env)
     g.set_opset(rr.pick([17, 17, 18, 19, 20, 21, 22, 23]))
     dev, dv = _dev(rr, g, tag, ["axis", "axis", "bias", "bias", "bias", "inputs", "outputs"])
     dt = rr.pick([F32, F32, F32, F64, F16])
@@ -255,15 +277,15 @@ def host_layer_norm_bias(g):
     if dv("outputs", False, [True]):
         outs.append(ln[0])
         g.features.add(f"{tag}:ln_out_also_output")
-    return outs
+    return _hide(g, rr, n0, outs, tag)
 
 
 # ----------------------------------------------------------------------------------------------- RMSNormalization
-@register("fusion._rms_normalization._rule1", "fusion._rms_normalization._rule2", "fusion._rms_normalization.rms_normalization_ruleset")
-def host_rms_norm(g):
+def host_rms_norm(g, prefer=None):
     tag = "planted:rms_norm"
     g.features.add(tag)
     rr = _Rng(g)
+    n0 = len(g.env)
     g.set_opset(rr.pick([17, 18, 19, 20, 21, 22, 23, 23, 23, 23, 23]))
     g.features.add(f"{tag}:opset_{g.opset if g.opset in (17, 23) else '18to22'}")
     dev, dv = _dev(rr, g, tag, ["reduce", "eps", "eps", "scale", "scale", "form", "cast", "cast", "extra"])
@@ -292,7 +314,7 @@ def host_rms_norm(g):
     ms = _reduce_mean(g, sq[0], axes, 1 if explicit else None, noop=0 if explicit else None, rr=rr)
     if not ms:
         return None
-    eps = _eps(g, rr, cdt, rank, shape[-1], dv, tag)
+    eps = _eps(g, rr, cdt, rank, shape[-1], dev, tag)
     mse = g.emit("Add", [eps, ms[0]] if rr.chance(2) else [ms[0], eps])
     if not mse:
         return None
@@ -319,7 +341,7 @@ def host_rms_norm(g):
             return None
         nv = r[0]
     scale = _scale(g, rr, nv.dtype, shape, dv, tag)
-    order = rr.pick(["norm_scale", "scale_norm"])
+    order = rr.pick(["norm_scale", "scale_norm"] + [prefer] * 4 if prefer else ["norm_scale", "scale_norm"])
     g.features.add(f"{tag}:order_{order}")
     out = g.emit("Mul", [nv, scale] if order == "norm_scale" else [scale, nv])
     if not out:
@@ -329,7 +351,17 @@ def host_rms_norm(g):
     if extra:
         g.features.add(f"{tag}:extra_{extra}")
         outs.append(rms[0] if extra == "rms" else norm[0])
-    return outs
+    return _hide(g, rr, n0, outs, tag)
+
+
+@register("fusion._rms_normalization._rule1", "fusion._rms_normalization.rms_normalization_ruleset")
+def host_rms_norm_1(g):
+    return host_rms_norm(g, "norm_scale")  # the operand order _rule1 matches, 5:1
+
+
+@register("fusion._rms_normalization._rule2", "fusion._rms_normalization.rms_normalization_ruleset")
+def host_rms_norm_2(g):
+    return host_rms_norm(g, "scale_norm")  # the operand order _rule2 matches, 5:1
 
 
 # ----------------------------------------------------------------------------------------------- RotaryEmbedding from primitives
@@ -541,8 +573,10 @@ def host_gqa(g):
     pk = g.add_input(dt, (b, hkv, p, d), style=style, dims=[B, hkv, P, d])
     pv = g.add_input(dt, (b, hkv, p, dvv), style=style, dims=[B, hkv, P, dvv])
     cax = dv("axes", -2, [2])
-    uax = dv("axes", [2], [[-3]])
-    g.features.add(f"{tag}:concat_axis_{cax}_unsq_{uax[0]}")
+    # the pattern literal `2` only matches a 0-d axes constant (what onnxscript/torch emit; runtimes and the checker accept it);
+    # the spec-conformant 1-D [2] is drawn as a variant
+    uax = dv("axes", 2, [[2], [2], -3])
+    g.features.add(f"{tag}:concat_axis_{cax}_unsq_{'scalar' if isinstance(uax, int) else 'vector'}{uax}")
     shape_kind = rr.pick(["const", "const", "dynamic"]) if sym == "static" else "dynamic"
     ekind = rr.pick(["full", "full", "ones"])
     rkind = rr.pick(["full", "full", "zero_minus1"])
